@@ -1,0 +1,271 @@
+//go:build verif
+
+package validate
+
+// Instrumentation for the external verification harness (/verif). Add-only:
+// nothing here is compiled without the "verif" build tag.
+
+import (
+	stderrors "errors"
+	"fmt"
+	"reflect"
+	re "regexp"
+	"sort"
+	"sync"
+
+	"github.com/go-openapi/spec"
+)
+
+const (
+	// VerifOff leaves redeems untouched.
+	VerifOff = 0
+	// VerifTenure records redeems, poisons the object and does NOT put it back in the pool:
+	// every borrow is then a fresh allocation and each pointer is exactly one tenure.
+	VerifTenure = 1
+	// VerifRecycle records redeems, poisons the object and lets it go back to the pool.
+	VerifRecycle = 2
+)
+
+// VerifPoisonText is the text of the error stored in a poisoned Result.
+const VerifPoisonText = "\x00POISONED-RESULT"
+
+var verifSt struct {
+	mu      sync.Mutex
+	mode    int
+	poison  bool
+	news    map[string]int
+	redeems map[string]int
+	seen    map[any]string // pointer -> kind, redeemed in this epoch (tenure mode)
+	doubles []string
+	keep    []any // keeps redeemed objects alive so that addresses are never reused within an epoch
+}
+
+func verifRedeemed(kind string, obj any) bool {
+	verifSt.mu.Lock()
+	defer verifSt.mu.Unlock()
+	if verifSt.mode == VerifOff {
+		return false
+	}
+	v := reflect.ValueOf(obj)
+	if !v.IsValid() || (v.Kind() == reflect.Ptr && v.IsNil()) {
+		return false
+	}
+	verifSt.redeems[kind]++
+	if verifSt.mode == VerifTenure {
+		if _, dup := verifSt.seen[obj]; dup {
+			verifSt.doubles = append(verifSt.doubles, kind)
+		}
+		verifSt.seen[obj] = kind
+		verifSt.keep = append(verifSt.keep, obj)
+	}
+	if verifSt.poison {
+		verifPoison(obj)
+	}
+	return verifSt.mode == VerifTenure
+}
+
+var verifPoisonErr = stderrors.New(VerifPoisonText)
+
+const verifPoisonPath = "\x00POISONED-PATH"
+
+func verifPoison(obj any) {
+	i64 := func() *int64 { x := int64(-7777); return &x }
+	f64 := func() *float64 { x := -7777.5; return &x }
+	switch s := obj.(type) {
+	case *Result:
+		s.Errors = append(s.Errors[:0], verifPoisonErr)
+		s.Warnings = append(s.Warnings[:0], verifPoisonErr)
+		s.MatchCount = -1 << 40
+		s.data = verifPoisonPath
+		s.rootObjectSchemata = schemata{one: &spec.Schema{SchemaProps: spec.SchemaProps{Description: verifPoisonPath, Default: verifPoisonPath}}}
+		s.fieldSchemata = append(s.fieldSchemata[:0], fieldSchemata{obj: map[string]interface{}{}, field: verifPoisonPath})
+		s.itemSchemata = s.itemSchemata[:0]
+		s.cachedFieldSchemata = nil
+		s.cachedItemSchemata = nil
+	case *SchemaValidator:
+		*s = SchemaValidator{Path: verifPoisonPath, in: verifPoisonPath}
+	case *objectValidator:
+		*s = objectValidator{Path: verifPoisonPath, In: verifPoisonPath, MaxProperties: i64(), MinProperties: i64(), Required: []string{verifPoisonPath},
+			Properties: map[string]spec.Schema{verifPoisonPath: {}}, PatternProperties: map[string]spec.Schema{"^": {}}, AdditionalProperties: &spec.SchemaOrBool{}}
+	case *schemaSliceValidator:
+		*s = schemaSliceValidator{Path: verifPoisonPath, In: verifPoisonPath, MaxItems: i64(), MinItems: i64(), UniqueItems: true, AdditionalItems: &spec.SchemaOrBool{}}
+	case *itemsValidator:
+		*s = itemsValidator{path: verifPoisonPath, in: verifPoisonPath}
+	case *basicCommonValidator:
+		*s = basicCommonValidator{Path: verifPoisonPath, In: verifPoisonPath, Default: verifPoisonPath, Enum: []interface{}{verifPoisonPath}}
+	case *HeaderValidator:
+		*s = HeaderValidator{name: verifPoisonPath}
+	case *ParamValidator:
+		*s = ParamValidator{}
+	case *basicSliceValidator:
+		*s = basicSliceValidator{Path: verifPoisonPath, In: verifPoisonPath, Default: verifPoisonPath, MaxItems: i64(), MinItems: i64(), UniqueItems: true}
+	case *numberValidator:
+		*s = numberValidator{Path: verifPoisonPath, In: verifPoisonPath, Default: verifPoisonPath, MultipleOf: f64(), Maximum: f64(), Minimum: f64(),
+			ExclusiveMaximum: true, ExclusiveMinimum: true, Type: verifPoisonPath, Format: verifPoisonPath}
+	case *stringValidator:
+		*s = stringValidator{Path: verifPoisonPath, In: verifPoisonPath, Default: verifPoisonPath, Required: true, MaxLength: i64(), MinLength: i64(), Pattern: "(" + verifPoisonPath}
+	case *schemaPropsValidator:
+		*s = schemaPropsValidator{Path: verifPoisonPath, In: verifPoisonPath}
+	case *formatValidator:
+		*s = formatValidator{Path: verifPoisonPath, In: verifPoisonPath, Format: verifPoisonPath}
+	case *typeValidator:
+		*s = typeValidator{Path: verifPoisonPath, In: verifPoisonPath, Type: spec.StringOrArray{verifPoisonPath}, Format: verifPoisonPath}
+	case *spec.Schema:
+		*s = spec.Schema{SchemaProps: spec.SchemaProps{Description: verifPoisonPath, Default: verifPoisonPath, Type: spec.StringOrArray{verifPoisonPath}}}
+	}
+}
+
+// VerifReset starts a new epoch: fresh pools whose New functions count allocations, empty tables.
+func VerifReset(mode int, poison bool) {
+	verifSt.mu.Lock()
+	defer verifSt.mu.Unlock()
+	resetPools()
+	verifSt.mode = mode
+	verifSt.poison = poison
+	verifSt.news = map[string]int{}
+	verifSt.redeems = map[string]int{}
+	verifSt.seen = map[any]string{}
+	verifSt.doubles = nil
+	verifSt.keep = nil
+	wrap := func(kind string, p *sync.Pool) {
+		orig := p.New
+		p.New = func() any {
+			verifSt.mu.Lock()
+			verifSt.news[kind]++
+			verifSt.mu.Unlock()
+			return orig()
+		}
+	}
+	wrap("schemaValidatorsPool", pools.poolOfSchemaValidators.Pool)
+	wrap("objectValidatorsPool", pools.poolOfObjectValidators.Pool)
+	wrap("sliceValidatorsPool", pools.poolOfSliceValidators.Pool)
+	wrap("itemsValidatorsPool", pools.poolOfItemsValidators.Pool)
+	wrap("basicCommonValidatorsPool", pools.poolOfBasicCommonValidators.Pool)
+	wrap("headerValidatorsPool", pools.poolOfHeaderValidators.Pool)
+	wrap("paramValidatorsPool", pools.poolOfParamValidators.Pool)
+	wrap("basicSliceValidatorsPool", pools.poolOfBasicSliceValidators.Pool)
+	wrap("numberValidatorsPool", pools.poolOfNumberValidators.Pool)
+	wrap("stringValidatorsPool", pools.poolOfStringValidators.Pool)
+	wrap("schemaPropsValidatorsPool", pools.poolOfSchemaPropsValidators.Pool)
+	wrap("formatValidatorsPool", pools.poolOfFormatValidators.Pool)
+	wrap("typeValidatorsPool", pools.poolOfTypeValidators.Pool)
+	wrap("schemasPool", pools.poolOfSchemas.Pool)
+	wrap("resultsPool", pools.poolOfResults.Pool)
+}
+
+// VerifStats returns "kind new=<n> redeemed=<n>" lines (sorted) and the kinds redeemed twice in one tenure.
+func VerifStats() (stats []string, doubleRedeems []string) {
+	verifSt.mu.Lock()
+	defer verifSt.mu.Unlock()
+	kinds := map[string]struct{}{}
+	for k := range verifSt.news {
+		kinds[k] = struct{}{}
+	}
+	for k := range verifSt.redeems {
+		kinds[k] = struct{}{}
+	}
+	for k := range kinds {
+		stats = append(stats, fmt.Sprintf("%s new=%d redeemed=%d", k, verifSt.news[k], verifSt.redeems[k]))
+	}
+	sort.Strings(stats)
+	return stats, append([]string(nil), verifSt.doubles...)
+}
+
+// VerifCounts returns allocation and redeem counts per pool kind.
+func VerifCounts() (news, redeems map[string]int) {
+	verifSt.mu.Lock()
+	defer verifSt.mu.Unlock()
+	news, redeems = map[string]int{}, map[string]int{}
+	for k, v := range verifSt.news {
+		news[k] = v
+	}
+	for k, v := range verifSt.redeems {
+		redeems[k] = v
+	}
+	return
+}
+
+// VerifPollutePools puts n poisoned objects of every kind in the pools ("whatever came before").
+func VerifPollutePools(n int) {
+	for i := 0; i < n; i++ {
+		objs := []any{&SchemaValidator{}, &objectValidator{}, &schemaSliceValidator{}, &itemsValidator{}, &basicCommonValidator{},
+			&HeaderValidator{}, &ParamValidator{}, &basicSliceValidator{}, &numberValidator{}, &stringValidator{},
+			&schemaPropsValidator{}, &formatValidator{}, &typeValidator{}, &spec.Schema{}, &Result{}}
+		for _, o := range objs {
+			verifPoison(o)
+		}
+		pools.poolOfSchemaValidators.Pool.Put(objs[0])
+		pools.poolOfObjectValidators.Pool.Put(objs[1])
+		pools.poolOfSliceValidators.Pool.Put(objs[2])
+		pools.poolOfItemsValidators.Pool.Put(objs[3])
+		pools.poolOfBasicCommonValidators.Pool.Put(objs[4])
+		pools.poolOfHeaderValidators.Pool.Put(objs[5])
+		pools.poolOfParamValidators.Pool.Put(objs[6])
+		pools.poolOfBasicSliceValidators.Pool.Put(objs[7])
+		pools.poolOfNumberValidators.Pool.Put(objs[8])
+		pools.poolOfStringValidators.Pool.Put(objs[9])
+		pools.poolOfSchemaPropsValidators.Pool.Put(objs[10])
+		pools.poolOfFormatValidators.Pool.Put(objs[11])
+		pools.poolOfTypeValidators.Pool.Put(objs[12])
+		pools.poolOfSchemas.Pool.Put(objs[13])
+		pools.poolOfResults.Pool.Put(objs[14])
+	}
+}
+
+// VerifRegexpCacheKeys returns the sorted keys of the published regexp cache and, for each key,
+// the source text of the expression stored under it.
+func VerifRegexpCacheKeys() (keys []string, sources []string) {
+	cache, _ := reDict.Load().(map[string]*re.Regexp)
+	for k := range cache {
+		keys = append(keys, k)
+	}
+	sort.Strings(keys)
+	for _, k := range keys {
+		if cache[k] == nil {
+			sources = append(sources, "<nil>")
+		} else {
+			sources = append(sources, cache[k].String())
+		}
+	}
+	return
+}
+
+// VerifResetRegexpCache empties the regexp cache.
+func VerifResetRegexpCache() {
+	cacheMutex.Lock()
+	defer cacheMutex.Unlock()
+	reDict.Store(map[string]*re.Regexp{})
+}
+
+// VerifCompileRegexp exposes compileRegexp.
+func VerifCompileRegexp(p string) (*re.Regexp, error) { return compileRegexp(p) }
+
+// VerifIsVisited exposes the visited-path heuristic of the default/example validators.
+func VerifIsVisited(path string, visited []string) bool {
+	m := map[string]struct{}{}
+	for _, v := range visited {
+		m[v] = struct{}{}
+	}
+	return isVisited(path, m)
+}
+
+// VerifExtractPathParams exposes pathHelper.extractPathParams.
+func VerifExtractPathParams(path string) []string { return pathHelp.extractPathParams(path) }
+
+// VerifStripParametersInPath exposes pathHelper.stripParametersInPath.
+func VerifStripParametersInPath(path string) string { return pathHelp.stripParametersInPath(path) }
+
+// VerifResultInternals exposes the unexported bookkeeping of a Result as plain values.
+func VerifResultInternals(r *Result) (wantsRedeem bool, nField, nItem, nRoot int) {
+	if r == nil {
+		return false, 0, 0, 0
+	}
+	return r.wantsRedeemOnMerge, len(r.fieldSchemata), len(r.itemSchemata), r.rootObjectSchemata.Len()
+}
+
+// VerifDefaultOpts returns a copy of the package defaults, read under the mutex.
+func VerifDefaultOpts() Opts {
+	defaultOptsMutex.Lock()
+	defer defaultOptsMutex.Unlock()
+	return defaultOpts
+}
